@@ -118,7 +118,7 @@ def vo_uptodate(vfile):
     return rc == 0
 
 
-def obligations(pid):
+def obligations(pid, tier="quick"):
     """re-check the property's statements file; returns dict"""
     spec = registry.PROPS[pid]
     res = dict(total=0, discharged=0, failed=[], axioms=[], theorems=[], log="")
@@ -167,6 +167,16 @@ def obligations(pid):
                     res["failed"].append((t, "depends on undeclared axioms: " + ", ".join(bad)))
                 else:
                     res["discharged"] += 1
+    # thorough tier: the independent checker re-checks the compiled statements and everything they depend on
+    if tier == "thorough" and not res["failed"]:
+        mods = ["FositeModel." + pf[:-2].replace("/", ".") for pf in spec["props_files"]]
+        with Lock("coq.lock"):
+            rc, cout = sh(["coqchk", "-silent", "-o", "-Q", ".", "FositeModel"] + mods, cwd=COQ, timeout=5400)
+        summ = cout[cout.find("CONTEXT SUMMARY"):] if "CONTEXT SUMMARY" in cout else cout[-1500:]
+        res["coqchk"] = re.sub(r"\s+", " ", summ)[:1500]
+        clean = all(re.search(pat, summ) for pat in (r"Axioms:\s*<none>", r"type-in-type:\s*<none>", r"unsafe \(co\)fixpoints:\s*<none>", r"positivity is assumed:\s*<none>"))
+        if rc != 0 or not clean:
+            res["failed"].append(("coqchk", "the independent checker did not accept the compiled statements cleanly: " + res["coqchk"][:400]))
     return res
 
 
@@ -276,7 +286,7 @@ def write_evidence(pid, tier, seed, ob, meta, wall, nviol, extra):
         obligations=ob["total"], discharged=ob["discharged"],
         checker_cmd="cd coq && make -k -j16 && coqc -Q . FositeModel " + " ".join(spec["props_files"]),
         trusted_base=registry.TRUSTED_BASE + spec.get("trusted_extra", []),
-        theorems=ob["theorems"], axioms_reported=ob["axioms"],
+        theorems=ob["theorems"], axioms_reported=ob["axioms"], coqchk=ob.get("coqchk", "not run in this tier"),
         failed_obligations=[{"theorem": t, "why": w} for t, w in ob["failed"]],
         evaluations=meta.get("evaluations", 0), distinct_nontrivial=meta.get("distinct_nontrivial", 0),
         rule=meta.get("rule", ""), samples=meta.get("samples", []), histogram=meta.get("histogram", {}),
@@ -294,7 +304,7 @@ def write_evidence(pid, tier, seed, ob, meta, wall, nviol, extra):
 def run_check(pid, tier, seed):
     t0 = time.time()
     outdir = os.path.join(WORK, pid)
-    ob = obligations(pid)
+    ob = obligations(pid, tier)
     log("[%s] obligations: %d/%d discharged" % (pid, ob["discharged"], ob["total"]))
     for t, w in ob["failed"]:
         log("[%s]   obligation broken: %s (%s)" % (pid, t, w))
